@@ -84,6 +84,8 @@ func apiCall(drm uint8, op string, a []string) (res []string) {
 				res = []string{panicTok(r)}
 			}
 		}()
+		wdEnter(drm, op, a)
+		defer wdLeave()
 		res = apiRun(op, a)
 	}()
 	d128.DefaultRoundingMode = d128.ToNearestEven
